@@ -597,4 +597,32 @@ theorem grepack_length (ρ : Nat → Nat) (hρ : ∀ a b, ρ a = ρ b → a = b)
   simp only []
   rw [(gpackW_length ρ t [] v hv).1, (gpackW_length id t [] v hv).1]
 
+
+/-! ### PACK is injective and prefix-free on object graphs -/
+
+mutual
+theorem rename_id : ∀ (v : GVal), GVal.rename id v = v
+  | .flat _ => by simp [GVal.rename]
+  | .null => by simp [GVal.rename]
+  | .ptr a x => by simp [GVal.rename, rename_id x]
+  | .some x => by simp [GVal.rename, rename_id x]
+  | .list vs => by simp [GVal.rename, renameList_id vs]
+theorem renameList_id : ∀ (vs : List GVal), GVal.renameList id vs = vs
+  | [] => by simp [GVal.renameList]
+  | v :: vs => by simp [GVal.renameList, rename_id v, renameList_id vs]
+end
+
+theorem gpack_inj (H H' : Nat → GVal) (t : GTy) (v v' : GVal) (r r' : Bytes)
+    (hv : gwt t v = true) (hv' : gwt t v' = true) (hc : GVal.cons H v) (hc' : GVal.cons H' v')
+    (h : (gpack t [] v).1 ++ r = (gpack t [] v').1 ++ r') : v = v' ∧ r = r' := by
+  obtain ⟨M1, e1, _⟩ := gunpack_gpackW id H t v (gdflt t) [] [] r hv hc (gfresh_gdflt t) (PInv_nil id H)
+  obtain ⟨M2, e2, _⟩ := gunpack_gpackW id H' t v' (gdflt t) [] [] r' hv' hc' (gfresh_gdflt t) (PInv_nil id H')
+  unfold gpack at h
+  rw [h, e2] at e1
+  rw [rename_id, rename_id] at e1
+  injection e1 with e1
+  injection e1 with a b
+  injection b with b c
+  exact ⟨a.symm, c.symm⟩
+
 end OpmVerif.Serial
